@@ -524,12 +524,23 @@ class Gen(object):
                                        {nxt: {'c': 1, 'k': 2, '0': 3}}, 5, None, '', [[nxt]]])
         return doc
 
-    def nones_document(self, schema):
-        """every field present, many of them None: exercises what a None value skips"""
+    def nones_document(self, schema, deep=False):
+        """every field present, many of them None: exercises what a None value skips;
+        `deep`: None values inside nested mappings and sequences as well"""
         d = {}
         for f, rules in schema.items():
-            d[f] = None if self.chance(0.6) else self.value_for(rules)
+            if deep:
+                d[f] = None if self.chance(0.2) else self.sprinkle_none(self.value_for(rules), 0.4)
+            else:
+                d[f] = None if self.chance(0.6) else self.value_for(rules)
         return d
+
+    def sprinkle_none(self, v, p):
+        if isinstance(v, dict):
+            return {k: (None if self.chance(p) else self.sprinkle_none(x, p)) for k, x in v.items()}
+        if isinstance(v, list):
+            return [(None if self.chance(p * 0.5) else self.sprinkle_none(x, p)) for x in v]
+        return v
 
     def arbitrary_document(self):
         return {k: self.anyval(3) for k in self.some(FIELDS, 0, 5)}
